@@ -82,12 +82,29 @@ func exec(c *hx.Ctx, line string) string {
 	var finished atomic.Bool
 	arr := make([][]string, len(caps))
 	queues := make([]*taskx.Queue, len(caps))
+	quit := make(chan struct{})
+	got := make([]atomic.Int64, len(caps))
+	expected := make([]int64, len(caps))
+	for _, r := range reqs {
+		expected[r.q]++
+	}
 	for i := range caps {
 		queues[i] = taskx.NewQueue(taskx.WithSize(caps[i]), taskx.WithErrorLogger(func(format string, args ...any) {}))
 		go func(i int) {
 			sleepUntil(starts[i])
-			for t := range queues[i].C { // the consumer lives on: a late task must never block the global loop
-				_ = t.Do(nil)
+			for {
+				select {
+				case t := <-queues[i].C:
+					_ = t.Do(nil)
+					got[i].Add(1)
+				case <-quit:
+					// leave only when nothing is outstanding for this queue: a late task must never block the global loop
+					if got[i].Load() >= expected[i] {
+						return
+					}
+					_ = (<-queues[i].C).Do(nil)
+					got[i].Add(1)
+				}
 			}
 		}(i)
 	}
@@ -108,6 +125,7 @@ func exec(c *hx.Ctx, line string) string {
 	sleepUntil(endT)
 	time.Sleep(1)
 	finished.Store(true)
+	close(quit)
 	mu.Lock()
 	defer mu.Unlock()
 	var sb strings.Builder
